@@ -24,7 +24,7 @@ CHAIN = space.alphabet('NOT', 'LNOT')
 CHAINB = space.alphabet('IFF', 'RIFF')
 CHAIN1 = space.alphabet('NOT')
 CHAINB1 = space.alphabet('IFF')
-ALPHAS = {'CHAIN1': CHAIN1, 'CHAINB1': CHAINB1, 'CHAIN': CHAIN, 'CHAINB': CHAINB, 'NEG4': NEG4, 'BUF4': BUF4, 'FULL': space.FULL, 'FULL_NO3': space.FULL_NO3, 'NEG': NEGFAM, 'BUF': BUFFAM, 'UNARY': c03.UNARY_FAMILY}
+ALPHAS = {'SU2': space.alphabet('AND', 'OR', 'XOR', 'NOT', 'IFF'), 'CHAIN1': CHAIN1, 'CHAINB1': CHAINB1, 'CHAIN': CHAIN, 'CHAINB': CHAINB, 'NEG4': NEG4, 'BUF4': BUF4, 'FULL': space.FULL, 'FULL_NO3': space.FULL_NO3, 'NEG': NEGFAM, 'BUF': BUFFAM, 'UNARY': c03.UNARY_FAMILY}
 
 _P = None
 
@@ -61,6 +61,32 @@ def pipelines():
             lambda c, a=a, b=b, c_=c_: ap(c, TransformerComposition([s[a], s[b], s[c_]])),
             [a, b, c_],
         )
+    # user-defined transformers whose implied pre/post passes have implied passes of their own
+    import copy as _copy
+
+    def make_custom(pre, post):
+        class Custom(Transformer):
+            def __init__(self):
+                super().__init__(pre_transformers=tuple(pre), post_transformers=tuple(post))
+
+            def _transform(self, circuit):
+                return _copy.copy(circuit)
+
+        return Custom()
+
+    s['ID'] = make_custom((), ())  # plain identity pass, used as a constituent name below
+    for pre_n, post_n in ((), ('MDG',)), (('MUO',), ()), (('MEG',), ('MDG',)), ((), ('MUO', 'RRGi')), (('MDG', 'MUO'), ('MEG',)):
+        cust = make_custom([s[x] for x in pre_n], [s[x] for x in post_n])
+        consts = []
+        for x in pre_n:
+            consts.append(x)
+        consts.append('ID')
+        for x in post_n:
+            consts.append(x)
+        nm = f'custom(pre={list(pre_n)},post={list(post_n)})'
+        P[nm] = (cust.transform, consts)
+        P[f'[{nm}]'] = (lambda c, cust=cust: ap(c, [cust]), consts)
+        P[f'{nm}|RRG'] = ((cust | s['RRG']).transform, consts + ['RRG'])
     P['cleanup'] = (lambda c: cleanup(c), ['RRG', 'MUO', 'MDG'])
     P['cleanupH'] = (lambda c: cleanup(c, use_heavy=True), ['RRG', 'MUO', 'MDG', 'MEG'])
     _P = (P, s)
@@ -82,6 +108,8 @@ def plan(tier):
     fam(2, 2, 'FULL', 1, 'post', 'core')
     fam(2, 2, 'FULL_NO3', 1, 'pipe', 'last')
     fam(3, 1, 'FULL', 1, 'post', 'core')
+    fam(2, 2, 'SU2', 1, 'labels', 'core')
+    fam(1, 3, 'SU2', 1, 'labels', 'core')
     fam(1, 4, 'CHAIN', 2, 'post', 'last')
     fam(1, 4, 'CHAINB', 2, 'post', 'last')
     for k in (5, 6, 7):
@@ -102,11 +130,11 @@ def plan(tier):
 def describe(tier):
     P, _ = pipelines()
     return {
-        'rule': 'E1: circuits of F(n,k,A) x output policies. mode post (also on the same circuit with reversed storage order for the unary/chain families): postcondition predicates of the five '
+        'rule': 'E1: circuits of F(n,k,A) x output policies. mode labels: F(2,2,.) and F(1,3,.) over {AND,OR,XOR,NOT,IFF} with each node in turn labelled \'\' (the only falsy label) or \'0\', all postconditions. mode post (also on the same circuit with reversed storage order for the unary/chain families): postcondition predicates of the five '
         'passes on every result (RRG exact reachable set + idempotence, MergeDuplicate no equal signature, '
         'MergeEquivalent no equal reference table, MergeUnary negation/buffer statements on the all-negation / '
         f'all-buffer families). mode pipe: {len(P)} pipeline expressions (all a|b, all [a,b], 10 triples in 5 '
-        'nestings, cleanup light/heavy) compared with manual sequencing of .transform. distinct = distinct '
+        'nestings, 5 user-defined transformers with nested implied pre/post passes, cleanup light/heavy) compared with manual sequencing of .transform. distinct = distinct '
         '(pass, result shape) outcomes.',
         'bounds': {
             'quick': 'post: F(0..2,<=2,FULL), F(3,1,FULL) core policies, NEG/BUF families k=3 (last-gate output), negation / buffer chains F(1,4,{NOT,LNOT}), F(1,4,{IFF,RIFF}), F(1,5..7,{NOT}), F(1,5..7,{IFF}); '
@@ -285,10 +313,26 @@ def check_circuit(n, gates, acc, mode, pol, fam):
         net = refmodel.Net(net0.inputs, [labs[o] for o in outs], net0.gates)
         if mode in ('post', 'both'):
             post_checks(n, gates, outs, acc, c, net, ref, fam)
+            if n + k <= 3 and outs:
+                for scheme in (['', '0', 'z', 'a', 'B@x'], ['not_x', 'x', 'new_1', '', 'g']):
+                    lab2 = scheme[: n + k]
+                    cl = space.build(n, gates, outs, lab2)
+                    netl = space.spec_net(n, gates, outs, lab2)
+                    post_checks(n, gates, outs, acc, cl, netl, netl.tables(), fam, tag='labels:' + repr(lab2))
             if fam in SCRAMBLE_FAMS or (n + k <= 3):
                 # same circuit, gate map stored in reverse (non-topological) order
                 c2 = space.scramble_storage(space.build(n, gates, outs))
                 post_checks(n, gates, outs, acc, c2, net, ref, fam, tag='scrambled')
+        if mode == 'labels' and outs:
+            # one node at a time carries an unusual but legal label: the empty string (the only falsy label)
+            # or a decimal one
+            for pos in range(n + k):
+                for odd in ('', '0'):
+                    lab2 = list(labs)
+                    lab2[pos] = odd
+                    cl = space.build(n, gates, outs, lab2)
+                    netl = space.spec_net(n, gates, outs, lab2)
+                    post_checks(n, gates, outs, acc, cl, netl, netl.tables(), fam, tag='labels:' + repr(lab2))
         if mode in ('pipe', 'both'):
             pipe_checks(n, gates, outs, acc, c)
     acc.sample({**space.spec_json(n, gates, pols[-1]), 'mode': mode})
@@ -309,6 +353,11 @@ def replay(case, acc):
     if 'pipeline' in case:
         pipe_checks(n, gates, outs, acc, c, names={case['pipeline']})
     else:
-        if case.get('storage') == 'scrambled':
+        st = case.get('storage') or ''
+        if st.startswith('labels:'):
+            lab2 = eval(st[7:])  # noqa: S307
+            c = space.build(n, gates, outs, lab2)
+            net = space.spec_net(n, gates, outs, lab2)
+        if st == 'scrambled':
             space.scramble_storage(c)
         post_checks(n, gates, outs, acc, c, net, net.tables(), None, tag=case.get('storage'))
